@@ -188,16 +188,21 @@ def run(ctx, eng):
     I = flow.stream_inliner(eng)
     agreements = [
         # sender, frame class, frame field, argument; receiver, event attr
+        # ... receiving stream method, event attribute, the frame handler
+        # that calls it, and what the attribute is in the handler's terms
         (H + 'reset_stream', 'RstStreamFrame', 'error_code', 'error_code',
-         S + 'stream_reset', 'error_code', 'frame.error_code'),
+         S + 'stream_reset', 'error_code', H + '_receive_rst_stream_frame',
+         'frame.error_code'),
         (H + 'increment_flow_control_window', 'WindowUpdateFrame',
          'window_increment', 'increment', S + 'receive_window_update',
-         'delta', 'increment'),
+         'delta', H + '_receive_window_update_frame',
+         'frame.window_increment'),
         (H + 'push_stream', 'PushPromiseFrame', 'promised_stream_id',
          'promised_stream_id', S + 'receive_push_promise_in_band',
-         'pushed_stream_id', 'promised_stream_id'),
+         'pushed_stream_id', H + '_receive_push_promise_frame',
+         'frame.promised_stream_id'),
     ]
-    for snd, cls, field, arg, rcv, attr, src in agreements:
+    for snd, cls, field, arg, rcv, attr, hnd, src in agreements:
         fs = m.func(snd)
         okf = False
         try:
@@ -212,14 +217,18 @@ def run(ctx, eng):
                     f = p.state.objs.get(e.obj, {})
                     if f.get(field) == ('p', arg):
                         okf = True
+        # read through the call: the handler's paths with the stream method
+        # taken in - whether the method is handed the frame or the field
         fr = m.func(rcv)
-        okr = False
-        for p in cm.normal_paths(eng.I.run(fr)):
+        fh = m.func(hnd)
+        okr = cm.Every()
+        for p in cm.normal_paths(eng.interp({fr.qual}, depth=1).run(fh)):
             for e in p.events:
-                if e.kind == 'write' and e.attr == attr:
+                if e.kind == 'write' and e.attr == attr and \
+                        e.frame in (fr.qual, fh.qual) and \
+                        e.base[0] in ('obj', 'sub'):
                     s = cm.show0(e.value)
-                    if s == src or s.endswith('(%s)' % src):
-                        okr = True
+                    okr(s == src or s.endswith('(%s)' % src))
         ctx.ob('FLOW.wire', snd, '%s.%s <- %s' % (cls, field, arg), okf,
                'the argument reaches the frame field', node=fs.node)
         ctx.ob('FLOW.wire', rcv, 'event.%s <- %s' % (attr, src), okr,
@@ -227,9 +236,6 @@ def run(ctx, eng):
                node=fr.node)
     # handlers pass the right frame fields to the stream methods
     passes = [
-        ('_receive_window_update_frame', 'receive_window_update',
-         ['frame.window_increment']),
-        ('_receive_rst_stream_frame', 'stream_reset', ['frame']),
         ('_receive_data_frame', 'receive_data',
          ['frame.data', "('END_STREAM' in frame.flags)",
           'frame.flow_controlled_length']),
